@@ -417,7 +417,7 @@ def _worker(chunk):
 def run(ctx):
     # ---- the schedule dimension first (its workers are forked before this module's seams are installed): the
     #      found-block handler (miner thread) against the networking thread handling a delivery
-    thr = thrscen.run(ctx, 'MN', 1 if ctx.quick else 2, names=['found-vs-valid-sibling-delivery', 'found-vs-invalid-delivery', 'found-vs-transaction-delivery', 'request-vs-block-including-pending-tx'], only=['C12:'])
+    thr = thrscen.run(ctx, 'MN', 1 if ctx.quick else 2, names=['found-vs-valid-sibling-delivery', 'found-vs-invalid-delivery', 'found-vs-transaction-delivery', 'request-vs-block-including-pending-tx', 'request-vs-transaction-delivery'], only=['C12:'])
     thr_c = thrscen.run(ctx, 'MNc', 2 if ctx.quick else 3, names=['found-vs-valid-sibling-delivery', 'found-vs-invalid-delivery', 'found-vs-transaction-delivery'], only=['C12:'])   # coarser points, one preemption more
     ctx.cov['thread_schedules_coarse'] = thr_c
     ctx.cov['thread_schedules'] = thr
